@@ -18,6 +18,8 @@ fn run_single<F: VF>(st: usize, op: u16, kind: usize, a: u128, b: u128, outs: &m
         CMP_FI => F::cmp_int(st, x, kind, b, outs),
         CMP_F32 => F::cmp_f32(st, x, f32::from_bits(b as u32), outs),
         CMP_F64 => F::cmp_f64(st, x, f64::from_bits(b as u64), outs),
+        CMP_F16 => F::cmp_f16(st, x, b as u16, outs),
+        CMP_BF16 => F::cmp_bf16(st, x, b as u16, outs),
         CMP_SAME => {
             let y = F::from_raw(b);
             cmp_forms(st, 0, x, y, outs);
